@@ -614,4 +614,277 @@ theorem le_recSection (l : Lay) (vars : List Var) :
     omega
   · omega
 
+/-! ### the repaired NC_begins -/
+
+theorem runExceeds_of_head (m e : Nat) (v : Var) (l : List Var) (h : e > m) : RunExceeds m e (v :: l) :=
+  (runExceeds_cons m e v l).mpr (Or.inl h)
+
+theorem fixedPassG_eq (fmt : Nat) : ∀ (vars : List Var) (e : Nat), e % 4 = 0 → e ≤ NC_MAX_INT64 →
+    fixedPassG fmt e vars =
+      if (fmt = 1 ∧ RunExceeds NC_MAX_INT e (fixedVars vars)) ∨ e + sumLens (fixedVars vars) > NC_MAX_INT64 then none
+      else some (runBegins e (fixedVars vars), e + sumLens (fixedVars vars))
+  | [], e, _, hle => by
+    have : ¬ e > NC_MAX_INT64 := by omega
+    simp [fixedPassG, fixedVars, runBegins, RunExceeds, sumLens, this]
+  | v :: vs, e, he, hle => by
+    unfold fixedPassG
+    cases hr : v.isRec
+    · have hf : fixedVars (v :: vs) = v :: fixedVars vs := by simp [fixedVars, hr]
+      rw [hf, runBegins_cons, sumLens_cons]
+      simp only [runExceeds_cons, Bool.false_eq_true, if_false]
+      rw [rndup4 e he, varLen_eq]
+      by_cases h1 : fmt = 1 ∧ e > NC_MAX_INT
+      · have : (fmt = 1 ∧ (e > NC_MAX_INT ∨ RunExceeds NC_MAX_INT (e + vsize v) (fixedVars vs))) ∨
+            e + (vsize v + sumLens (fixedVars vs)) > NC_MAX_INT64 := Or.inl ⟨h1.1, Or.inl h1.2⟩
+        rw [if_pos h1, if_pos this]
+      · rw [if_neg h1]
+        by_cases hg : vsize v > NC_MAX_INT64 - e
+        · have : (fmt = 1 ∧ (e > NC_MAX_INT ∨ RunExceeds NC_MAX_INT (e + vsize v) (fixedVars vs))) ∨
+              e + (vsize v + sumLens (fixedVars vs)) > NC_MAX_INT64 := Or.inr (by omega)
+          rw [if_pos hg, if_pos this]
+        · rw [if_neg hg]
+          have he' : (e + vsize v) % 4 = 0 := by have := vsize_mod4 v; omega
+          have hle' : e + vsize v ≤ NC_MAX_INT64 := by omega
+          rw [fixedPassG_eq fmt vs (e + vsize v) he' hle']
+          by_cases h2 : (fmt = 1 ∧ RunExceeds NC_MAX_INT (e + vsize v) (fixedVars vs)) ∨
+              e + vsize v + sumLens (fixedVars vs) > NC_MAX_INT64
+          · have : (fmt = 1 ∧ (e > NC_MAX_INT ∨ RunExceeds NC_MAX_INT (e + vsize v) (fixedVars vs))) ∨
+                e + (vsize v + sumLens (fixedVars vs)) > NC_MAX_INT64 := by
+              rcases h2 with ⟨hf1, h⟩ | h
+              · exact Or.inl ⟨hf1, Or.inr h⟩
+              · exact Or.inr (by omega)
+            rw [if_pos h2, if_pos this]
+          · have : ¬ ((fmt = 1 ∧ (e > NC_MAX_INT ∨ RunExceeds NC_MAX_INT (e + vsize v) (fixedVars vs))) ∨
+                e + (vsize v + sumLens (fixedVars vs)) > NC_MAX_INT64) := by
+              rintro (⟨hf1, h | h⟩ | h)
+              · exact h1 ⟨hf1, h⟩
+              · exact h2 (Or.inl ⟨hf1, h⟩)
+              · exact h2 (Or.inr (by omega))
+            rw [if_neg h2, if_neg this]
+            simp only [Option.some.injEq, Prod.mk.injEq, true_and]
+            omega
+    · have hf : fixedVars (v :: vs) = fixedVars vs := by simp [fixedVars, hr]
+      rw [hf]
+      simp only [if_true]
+      exact fixedPassG_eq fmt vs e he hle
+
+theorem recPassG_eq (fmt : Nat) : ∀ (vars : List Var) (e : Nat), e ≤ NC_MAX_INT64 →
+    recPassG fmt e vars =
+      if (fmt = 1 ∧ RunExceeds NC_MAX_INT e (recVars vars)) ∨ e + sumLens (recVars vars) > NC_MAX_INT64 then none
+      else some (runBegins e (recVars vars), e + sumLens (recVars vars))
+  | [], e, hle => by
+    have : ¬ e > NC_MAX_INT64 := by omega
+    simp [recPassG, recVars, runBegins, RunExceeds, sumLens, this]
+  | v :: vs, e, hle => by
+    unfold recPassG
+    cases hr : v.isRec
+    · have hf : recVars (v :: vs) = recVars vs := by simp [recVars, hr]
+      rw [hf]
+      simp only [Bool.not_false, if_true]
+      exact recPassG_eq fmt vs e hle
+    · have hf : recVars (v :: vs) = v :: recVars vs := by simp [recVars, hr]
+      rw [hf, runBegins_cons, sumLens_cons]
+      simp only [runExceeds_cons, Bool.not_true, Bool.false_eq_true, if_false]
+      rw [varLen_eq]
+      by_cases h1 : fmt = 1 ∧ e > NC_MAX_INT
+      · have : (fmt = 1 ∧ (e > NC_MAX_INT ∨ RunExceeds NC_MAX_INT (e + vsize v) (recVars vs))) ∨
+            e + (vsize v + sumLens (recVars vs)) > NC_MAX_INT64 := Or.inl ⟨h1.1, Or.inl h1.2⟩
+        rw [if_pos h1, if_pos this]
+      · rw [if_neg h1]
+        by_cases hg : vsize v > NC_MAX_INT64 - e
+        · have : (fmt = 1 ∧ (e > NC_MAX_INT ∨ RunExceeds NC_MAX_INT (e + vsize v) (recVars vs))) ∨
+              e + (vsize v + sumLens (recVars vs)) > NC_MAX_INT64 := Or.inr (by omega)
+          rw [if_pos hg, if_pos this]
+        · rw [if_neg hg]
+          have hle' : e + vsize v ≤ NC_MAX_INT64 := by omega
+          rw [recPassG_eq fmt vs (e + vsize v) hle']
+          by_cases h2 : (fmt = 1 ∧ RunExceeds NC_MAX_INT (e + vsize v) (recVars vs)) ∨
+              e + vsize v + sumLens (recVars vs) > NC_MAX_INT64
+          · have : (fmt = 1 ∧ (e > NC_MAX_INT ∨ RunExceeds NC_MAX_INT (e + vsize v) (recVars vs))) ∨
+                e + (vsize v + sumLens (recVars vs)) > NC_MAX_INT64 := by
+              rcases h2 with ⟨hf1, h⟩ | h
+              · exact Or.inl ⟨hf1, Or.inr h⟩
+              · exact Or.inr (by omega)
+            rw [if_pos h2, if_pos this]
+          · have : ¬ ((fmt = 1 ∧ (e > NC_MAX_INT ∨ RunExceeds NC_MAX_INT (e + vsize v) (recVars vs))) ∨
+                e + (vsize v + sumLens (recVars vs)) > NC_MAX_INT64) := by
+              rintro (⟨hf1, h | h⟩ | h)
+              · exact h1 ⟨hf1, h⟩
+              · exact h2 (Or.inl ⟨hf1, h⟩)
+              · exact h2 (Or.inr (by omega))
+            rw [if_neg h2, if_neg this]
+            simp only [Option.some.injEq, Prod.mk.injEq, true_and]
+            omega
+
+theorem rndup_eq_mod (b a : Nat) (ha : 0 < a) :
+    rndup b a = if b % a = 0 then b else b + (a - b % a) := by
+  unfold rndup
+  have h1 := Nat.div_add_mod b a
+  have h2 := Nat.mod_lt b ha
+  generalize hq : b / a = q at h1
+  generalize hr : b % a = r at h1 h2
+  by_cases h0 : r = 0
+  · simp only [h0, if_true]
+    have e : b + a - 1 = a * q + (a - 1) := by omega
+    have e2 : (a - 1) / a = 0 := Nat.div_eq_of_lt (by omega)
+    rw [e, Nat.mul_add_div ha, e2, Nat.add_zero, Nat.mul_comm]; omega
+  · simp only [h0, if_false]
+    have hm : a * (q + 1) = a * q + a := Nat.mul_succ a q
+    have e : b + a - 1 = a * (q + 1) + (r - 1) := by omega
+    have e2 : (r - 1) / a = 0 := Nat.div_eq_of_lt (by omega)
+    rw [e, Nat.mul_add_div ha, e2, Nat.add_zero, Nat.mul_comm]; omega
+
+theorem rndupG_eq (b a : Nat) (ha : 0 < a) (hb : b ≤ NC_MAX_INT64) :
+    rndupG b a = if rndup b a ≤ NC_MAX_INT64 then some (rndup b a) else none := by
+  unfold rndupG
+  rw [rndup_eq_mod b a ha]
+  have h2 := Nat.mod_lt b ha
+  by_cases h0 : b % a = 0
+  · simp [h0, hb]
+  · have hp : b % a > 0 := by omega
+    simp only [hp, if_true, h0, if_false]
+    by_cases hg : a - b % a > NC_MAX_INT64 - b
+    · have : ¬ b + (a - b % a) ≤ NC_MAX_INT64 := by omega
+      simp [hg, this]
+    · have : b + (a - b % a) ≤ NC_MAX_INT64 := by omega
+      simp [hg, this]
+
+theorem pad4_le_max (x : Nat) : pad4 x ≤ NC_MAX_INT64 ↔ x + 3 ≤ NC_MAX_INT64 := by
+  unfold pad4 NC_MAX_INT64; omega
+
+/-- the repaired NC_begins fails exactly when (CDF-1) a variable would start above NC_MAX_INT or
+    the end of the data section (of one record) would exceed NC_MAX_INT64 -/
+theorem ncBeginsG_none_iff (fmt : Nat) (l : Lay) (vars : List Var) (h4 : l.beginVar % 4 = 0)
+    (hb : l.beginVar ≤ NC_MAX_INT64) :
+    ncBeginsG fmt l vars = none ↔
+      (fmt = 1 ∧ (RunExceeds NC_MAX_INT l.beginVar (fixedVars vars) ∨
+                  RunExceeds NC_MAX_INT (recSection l vars) (recVars vars))) ∨
+      recSection l vars + sumLens (recVars vars) > NC_MAX_INT64 := by
+  have hle := le_recSection l vars
+  unfold ncBeginsG
+  rw [fixedPassG_eq fmt vars l.beginVar h4 hb]
+  by_cases h1 : (fmt = 1 ∧ RunExceeds NC_MAX_INT l.beginVar (fixedVars vars)) ∨
+      l.beginVar + sumLens (fixedVars vars) > NC_MAX_INT64
+  · rw [if_pos h1]
+    simp only [true_iff]
+    rcases h1 with ⟨hf, h⟩ | h
+    · exact Or.inl ⟨hf, Or.inl h⟩
+    · exact Or.inr (by omega)
+  · rw [if_neg h1]
+    simp only []
+    have hx : (if 0 < l.beginVar + sumLens (fixedVars vars) + l.vMinfree then l.beginVar + sumLens (fixedVars vars) + l.vMinfree else 0)
+        = l.beginVar + sumLens (fixedVars vars) + l.vMinfree := by split <;> omega
+    rw [hx]
+    -- recSection in terms of the pieces
+    have hrs : recSection l vars = if l.rAlign > 1 then rndup (pad4 (l.beginVar + sumLens (fixedVars vars) + l.vMinfree)) l.rAlign
+        else pad4 (l.beginVar + sumLens (fixedVars vars) + l.vMinfree) := rfl
+    have hp := pad4_le_max (l.beginVar + sumLens (fixedVars vars) + l.vMinfree)
+    have hpl := le_pad4 (l.beginVar + sumLens (fixedVars vars) + l.vMinfree)
+    have hnf : ¬ (fmt = 1 ∧ RunExceeds NC_MAX_INT l.beginVar (fixedVars vars)) := fun h => h1 (Or.inl h)
+    by_cases h2 : l.beginVar + sumLens (fixedVars vars) + l.vMinfree + 3 > NC_MAX_INT64
+    · rw [if_pos h2]
+      simp only [true_iff]
+      right
+      have : pad4 (l.beginVar + sumLens (fixedVars vars) + l.vMinfree) > NC_MAX_INT64 := by omega
+      have : recSection l vars > NC_MAX_INT64 := by
+        rw [hrs]; split
+        · have := le_rndup (pad4 (l.beginVar + sumLens (fixedVars vars) + l.vMinfree)) l.rAlign (by omega); omega
+        · omega
+      omega
+    · rw [if_neg h2]
+      have h3 : ¬ l.beginVar + sumLens (fixedVars vars) + l.vMinfree > NC_MAX_INT64 - 3 := by
+        unfold NC_MAX_INT64 at h2 ⊢; omega
+      rw [if_neg h3, rndup4_pad]
+      have hpm : pad4 (l.beginVar + sumLens (fixedVars vars) + l.vMinfree) ≤ NC_MAX_INT64 := by omega
+      by_cases hra : l.rAlign > 1
+      · simp only [hra, if_true] at hrs ⊢
+        rw [rndupG_eq _ _ (by omega) hpm, ← hrs]
+        by_cases h5 : recSection l vars ≤ NC_MAX_INT64
+        · simp only [h5, if_true]
+          rw [recPassG_eq fmt vars _ h5]
+          by_cases h6 : (fmt = 1 ∧ RunExceeds NC_MAX_INT (recSection l vars) (recVars vars)) ∨
+              recSection l vars + sumLens (recVars vars) > NC_MAX_INT64
+          · rw [if_pos h6]
+            simp only [true_iff]
+            rcases h6 with ⟨hf, h⟩ | h
+            · exact Or.inl ⟨hf, Or.inr h⟩
+            · exact Or.inr h
+          · rw [if_neg h6]
+            constructor
+            · intro h; cases h
+            · rintro (⟨hf, h | h⟩ | h)
+              · exact absurd ⟨hf, h⟩ hnf
+              · exact absurd (Or.inl ⟨hf, h⟩) h6
+              · exact absurd (Or.inr h) h6
+        · simp only [h5, if_false, true_iff]
+          right; omega
+      · simp only [hra, if_false] at hrs ⊢
+        rw [← hrs]
+        have h5 : recSection l vars ≤ NC_MAX_INT64 := by rw [hrs]; exact hpm
+        rw [recPassG_eq fmt vars _ h5]
+        by_cases h6 : (fmt = 1 ∧ RunExceeds NC_MAX_INT (recSection l vars) (recVars vars)) ∨
+            recSection l vars + sumLens (recVars vars) > NC_MAX_INT64
+        · rw [if_pos h6]
+          simp only [true_iff]
+          rcases h6 with ⟨hf, h⟩ | h
+          · exact Or.inl ⟨hf, Or.inr h⟩
+          · exact Or.inr h
+        · rw [if_neg h6]
+          constructor
+          · intro h; cases h
+          · rintro (⟨hf, h | h⟩ | h)
+            · exact absurd ⟨hf, h⟩ hnf
+            · exact absurd (Or.inl ⟨hf, h⟩) h6
+            · exact absurd (Or.inr h) h6
+
+theorem ncBeginsG_some (fmt : Nat) (l : Lay) (vars : List Var) (h4 : l.beginVar % 4 = 0)
+    (hb : l.beginVar ≤ NC_MAX_INT64) (b : Begins) (h : ncBeginsG fmt l vars = some b) :
+    b.fixed = runBegins l.beginVar (fixedVars vars) ∧ b.recs = runBegins (recSection l vars) (recVars vars) ∧
+    b.beginRec = recSection l vars := by
+  unfold ncBeginsG at h
+  rw [fixedPassG_eq fmt vars l.beginVar h4 hb] at h
+  by_cases h1 : (fmt = 1 ∧ RunExceeds NC_MAX_INT l.beginVar (fixedVars vars)) ∨
+      l.beginVar + sumLens (fixedVars vars) > NC_MAX_INT64
+  · rw [if_pos h1] at h; cases h
+  · rw [if_neg h1] at h
+    simp only [] at h
+    have hx : (if 0 < l.beginVar + sumLens (fixedVars vars) + l.vMinfree then l.beginVar + sumLens (fixedVars vars) + l.vMinfree else 0)
+        = l.beginVar + sumLens (fixedVars vars) + l.vMinfree := by split <;> omega
+    rw [hx] at h
+    have hrs : recSection l vars = if l.rAlign > 1 then rndup (pad4 (l.beginVar + sumLens (fixedVars vars) + l.vMinfree)) l.rAlign
+        else pad4 (l.beginVar + sumLens (fixedVars vars) + l.vMinfree) := rfl
+    have hp := pad4_le_max (l.beginVar + sumLens (fixedVars vars) + l.vMinfree)
+    by_cases h2 : l.beginVar + sumLens (fixedVars vars) + l.vMinfree + 3 > NC_MAX_INT64
+    · rw [if_pos h2] at h; cases h
+    · rw [if_neg h2] at h
+      have h3 : ¬ l.beginVar + sumLens (fixedVars vars) + l.vMinfree > NC_MAX_INT64 - 3 := by
+        unfold NC_MAX_INT64 at h2 ⊢; omega
+      rw [if_neg h3, rndup4_pad] at h
+      have hpm : pad4 (l.beginVar + sumLens (fixedVars vars) + l.vMinfree) ≤ NC_MAX_INT64 := by omega
+      by_cases hra : l.rAlign > 1
+      · simp only [hra, if_true] at hrs h
+        rw [rndupG_eq _ _ (by omega) hpm, ← hrs] at h
+        by_cases h5 : recSection l vars ≤ NC_MAX_INT64
+        · simp only [h5, if_true] at h
+          rw [recPassG_eq fmt vars _ h5] at h
+          by_cases h6 : (fmt = 1 ∧ RunExceeds NC_MAX_INT (recSection l vars) (recVars vars)) ∨
+              recSection l vars + sumLens (recVars vars) > NC_MAX_INT64
+          · rw [if_pos h6] at h; cases h
+          · rw [if_neg h6] at h
+            simp only [Option.some.injEq] at h
+            subst h
+            exact ⟨rfl, rfl, rfl⟩
+        · simp only [h5, if_false] at h; cases h
+      · simp only [hra, if_false] at hrs h
+        rw [← hrs] at h
+        have h5 : recSection l vars ≤ NC_MAX_INT64 := by rw [hrs]; exact hpm
+        rw [recPassG_eq fmt vars _ h5] at h
+        by_cases h6 : (fmt = 1 ∧ RunExceeds NC_MAX_INT (recSection l vars) (recVars vars)) ∨
+            recSection l vars + sumLens (recVars vars) > NC_MAX_INT64
+        · rw [if_pos h6] at h; cases h
+        · rw [if_neg h6] at h
+          simp only [Option.some.injEq] at h
+          subst h
+          exact ⟨rfl, rfl, rfl⟩
+
 end PnVerif.SizeLimits
